@@ -16,7 +16,23 @@ IV = [-3, -2, -1, 0, 1, 2, 3, 4]
 PAIRS = [("precondition_frequency", "start_preconditioning_step"), ("beta1", "beta3"), ("iro_list0", "iro_list1"), ("graft_eps", "graft_beta2"), ("momentum", "dampening")]
 
 
+FLAGSETS = [None, dict(use_nesterov=True), dict(use_bias_correction=False, use_decoupled_weight_decay=False), dict(use_merge_dims=False, use_nesterov=True, use_bias_correction=False)]
+
+
 def cases():
+    # the boolean options flipped around baseline 1 (momentum, dampening, weight decay non-zero there)
+    for flags in FLAGSETS[1:]:
+        base = dict(c17.BASE)
+        for n in [x for x in c17.FLOATS + c17.INTS if not x.startswith("iro_list")]:
+            for x in (FV if n in c17.FLOATS else IV):
+                v = dict(base)
+                v[n] = x
+                yield dict(base=1, graft="adam", soap=False, ignored=[], iro_list=False, sym=[n], flags=flags), v
+        for a, b in (("momentum", "dampening"), ("beta1", "beta3")):
+            for x, y in itertools.product(FV[::2], FV[::2]):
+                v = dict(base)
+                v[a], v[b] = x, y
+                yield dict(base=1, graft="adam", soap=False, ignored=[], iro_list=False, sym=[a, b], flags=flags), v
     for base_id, graft, soap in itertools.product((1, 2), (None, "sgd", "adagrad", "rmsprop", "adam"), (False, True)):
         for ign in ((), (0,)):
             for iro_list in (False, True):
@@ -47,7 +63,7 @@ def run_pass(limit=None):
     n, bad = 0, []
     for cfg, v in cases():
         n += 1
-        exc, opt = c17.construct(v, cfg["graft"], tuple(cfg["ignored"]), cfg["soap"])
+        exc, opt = c17.construct(v, cfg["graft"], tuple(cfg["ignored"]), cfg["soap"], cfg.get("flags"))
         dom = bool(c17.domain(v, cfg["graft"], tuple(cfg["ignored"])))
         ok = (exc is None) == dom
         if ok and exc is None:
@@ -63,6 +79,10 @@ def run_pass(limit=None):
 
 
 if __name__ == "__main__":
+    # once with the library's warnings enabled (the default for a user) and once with logging silenced: acceptance must not depend on it
+    logging.getLogger().addHandler(logging.NullHandler())
+    n0, bad0 = run_pass(limit=1500)
     logging.disable(logging.CRITICAL)
     n, bad = run_pass()
+    n, bad = n + n0, bad0 + bad
     json.dump(dict(cases=n, bad=bad[:20], nbad=len(bad)), sys.stdout)
